@@ -5,7 +5,7 @@ PROP = "C11"
 PREFIXES = ['C11.']
 ASSUME = ['the simulation layer (src/verif.rs) behaves like a kernel for what the properties observe (injected ingress with PKTINFO, captured egress, virtual clock)', "policy D: besides the daemon's own wake-ups the harness steps it at every instant where a delivered record reaches 80/85/90/95/100 % of its TTL and one second after every delivery; deadlines are judged in the first iteration at or after the due time (whether the daemon wakes by itself is C12)", "ground truth = spec/Heard.tla over the delivered packets (parsed by the harness's independent reader); names are compared by their lower-cased unescaped spelling unless a clause is about labels", 'weak readings chosen where the statement is silent: one-second grace around expiry (records in their last second count as gone), verify may or may not shorten address lifetimes, obligations only for records received in packets that were for this daemon']
 RULE = "driver family 'browse': a real daemon browsing 1-2 types (and a subtype) against 1-3 scripted responders on 1-2 interfaces (v4/v6): announcements split into 1-4 datagrams in any order with duplicates, loss, delay and foreign records, updates (port / TXT / address, cache-flush), goodbyes (lost / duplicated / PTR only), TTLs 1 s .. 4500 s, instance labels with dots, backslashes, UTF-8, 63 bytes, responders answering the daemon's refresh / follow-up queries with probability 0, 1/2 or 1, verify with timeouts 0.1-30 s, stop_browse and browse-again, get_metrics. driver family 'resolve': 1-2 hostname resolvers (all letter-case variants on caller and responder side, timeouts 1 ms .. 30 s or none, stop and resolve-again), responders announcing changing address sets with TTL 1-120 s, goodbyes, cache-flush address changes, loss."
-FAMILIES = [('browse', []), ('resolve', [], 'TraceBrowse', 'TraceBrowse.cfg', 60, 1500)]
+FAMILIES = [('browse', []), ('resolve', [], 'TraceBrowse', 'TraceBrowse.cfg', 60, 1500), ('browsew', [], 'TraceBrowse', 'TraceBrowse.cfg', 60, 1500)]
 MCS = [('MCHeard', 'MCHeard{T}.cfg')]
 
 
